@@ -6,6 +6,7 @@ import (
 	"os"
 	"runtime/debug"
 	"sort"
+	"strconv"
 	"time"
 )
 
@@ -25,6 +26,44 @@ type Simulator interface {
 
 // Sim is set by the harness before any goroutine of a run exists and is not reset while they live.
 var Sim Simulator
+
+// envSim gives a separate OS process (the instrumented gotree binary) the two seams that make sense
+// there: map-iteration order (VERIF_MAPSEED) and the clock (VERIF_EPOCH). Everything else is real.
+type envSim struct {
+	mapSeed uint64
+	epoch   int64
+	hasTime bool
+}
+
+func (envSim) Yield(site, kind string)      {}
+func (envSim) Spawn(site string) int        { return 0 }
+func (envSim) GoStart(id int)               {}
+func (envSim) GoEnd()                       {}
+func (envSim) Panicked(v any, stack []byte) { panic(v) }
+func (envSim) Locked(d int)                 {}
+func (e envSim) Now() time.Time {
+	if e.hasTime {
+		return time.Unix(e.epoch, 0).UTC()
+	}
+	return time.Now()
+}
+func (envSim) Exit(code int)             { os.Exit(code) }
+func (envSim) Tick()                     {}
+func (e envSim) MapSeed() (uint64, bool) { return e.mapSeed, true }
+
+func init() {
+	ms := os.Getenv("VERIF_MAPSEED")
+	if ms == "" {
+		return
+	}
+	e := envSim{}
+	e.mapSeed, _ = strconv.ParseUint(ms, 10, 64)
+	if ep := os.Getenv("VERIF_EPOCH"); ep != "" {
+		e.epoch, _ = strconv.ParseInt(ep, 10, 64)
+		e.hasTime = true
+	}
+	Sim = e
+}
 
 //go:norace
 func Yield(site, kind string) {
